@@ -6,7 +6,7 @@ wt=/tmp/seed/$id/wt
 out=/tmp/seed/$id/out
 log=/tmp/seed/$id/confirm.log
 export CARGO_NET_OFFLINE=true
-export CARGO_TARGET_DIR=$wt/target
+export CARGO_TARGET_DIR=$wt/compiler/target
 exec >$log 2>&1
 cd $wt || exit 2
 git diff --stat
